@@ -32,7 +32,11 @@ RULE = ('cases = (object kind in {sed, cube, conv}, spectral axis ascending/desc
         '(sometimes another shape) each time, every read compared with what was written last. Sibling histories: a '
         'path and its compressed twin <path>.gz in one directory (stale twin beside the file addressed, either way '
         'round; .gz written and addressed explicitly; only the .gz present and addressed without .gz for SED.read, '
-        'the one reader with a fallback).')
+        'the one reader with a fallback). Special value patterns of every stored array (all cells 0, all equal, a '
+        'single non-zero cell). Routes: constructor keyword arguments vs attributes assigned later, copy / deepcopy / '
+        'pickle of the object before writing, positional calls of read / write, SED.read(unit_wav=, unit_freq=) at '
+        'non-default units, SEDCube.write(meta=), a default write (overwrite=False) onto an existing file that must '
+        'refuse before the real write, an SED completed after SED.write refused it.')
 UNITS = ['mJy', 'Jy', 'erg/cm2/s', 'erg/s']
 ASSUMPTIONS = [
     'FITS byte layout, unit-string formatting/parsing are astropy\'s (trusted); float64 payload is stored bit-exactly',
@@ -142,6 +146,7 @@ def mixed_unit_combos():
     return out
 
 
+PATTERN_NAMES = ['zero', 'equal', 'single']
 REQUIRED_BRANCHES = sorted({combo_name(c) for c in all_combos()}) + \
     ['write_reverses', 'write_keeps', 'read_reverses', 'read_keeps', 'get_sed', 'get_sed_no_unc', 'single_aperture',
      'multi_aperture', 'single_model', 'multi_model',
@@ -149,7 +154,12 @@ REQUIRED_BRANCHES = sorted({combo_name(c) for c in all_combos()}) + \
      'sed_no_err_refused', 'sed_aperture_placeholder', 'cube_valid_flags', 'conv_scalar_columns',
      'flux_error_units_differ'] + \
     ['sibling_%s_%s' % (m, k) for m in ['stale_gz_beside', 'stale_plain_beside_gz', 'gz_explicit']
-     for k in ('sed', 'cube', 'conv')] + ['sibling_only_gz_addressed_plain_sed']
+     for k in ('sed', 'cube', 'conv')] + ['sibling_only_gz_addressed_plain_sed'] + \
+    ['pattern_%s_%s_%s' % (k, a, p) for k in ('sed', 'cube', 'conv') for a in ('val', 'unc') for p in PATTERN_NAMES] + \
+    ['route_clone_%s_%s' % (cl, k) for cl in ('copy', 'deepcopy', 'pickle') for k in ('sed', 'cube', 'conv')] + \
+    ['route_positional_' + k for k in ('sed', 'cube', 'conv')] + ['route_ctor_wav_cube', 'route_ctor_nu_cube', 'route_ctor_all_keywords_cube', 'route_ctor_conv'] + \
+    ['route_refused_then_overwrite_' + k for k in ('sed', 'cube', 'conv')] + \
+    ['route_unit_wav', 'route_unit_freq', 'route_meta_cube', 'sed_reused_after_refusal']
 
 
 def fill(rng, combo, small=False, sizes=None):
@@ -181,6 +191,78 @@ def fill(rng, combo, small=False, sizes=None):
     # validity flags of a cube (None = not set: the cube then reports all models valid)
     c['valid'] = [rng.randrange(2) for _ in range(nm)] if (c['kind'] == 'cube' and rng.random() < 0.5) else None
     return c
+
+
+PATTERNS = ['zero', 'equal', 'single']
+CLONES = ['copy', 'deepcopy', 'pickle']
+WAV_UNITS = ['nm', 'Angstrom', 'cm']
+FREQ_UNITS = ['GHz', 'THz']
+
+
+def apply_pattern(c, arr, pattern, rng):
+    """special value patterns of a stored array: every cell exactly 0 / all cells equal / a single non-zero cell"""
+    a = c[arr]
+    nm, nap, nw = len(a), len(a[0]), len(a[0][0])
+    if pattern == 'zero':
+        new = [[[0. for _ in range(nw)] for _ in range(nap)] for _ in range(nm)]
+    elif pattern == 'equal':
+        v = a[0][0][0]
+        new = [[[v for _ in range(nw)] for _ in range(nap)] for _ in range(nm)]
+    else:
+        new = [[[0. for _ in range(nw)] for _ in range(nap)] for _ in range(nm)]
+        m, p, k = rng.randrange(nm), rng.randrange(nap), rng.randrange(nw)
+        new[m][p][k] = a[m][p][k]
+    c[arr] = new
+    c.setdefault('pattern', {})[arr] = pattern
+    return c
+
+
+def route_plan():
+    """(kind, route) of the directed routes: how the object is built / cloned / written / read"""
+    out = []
+    for kind in ('sed', 'cube', 'conv'):
+        for cl in CLONES:
+            out.append((kind, dict(clone=cl)))
+        out.append((kind, dict(positional=True)))
+        out.append((kind, dict(refuse_first=True)))
+        out.append((kind, dict(refuse_first=True, clone='pickle', positional=True)))
+        if kind == 'conv':
+            out.append((kind, dict(ctor=True)))
+            out.append((kind, dict(ctor=True, clone='deepcopy')))
+        if kind == 'cube':
+            for how in ('wav', 'nu', 'all'):
+                out.append((kind, dict(ctor=how)))
+            out.append((kind, dict(ctor='all', clone='deepcopy')))
+            out.append((kind, dict(ctor='nu', clone='pickle', positional=True)))
+    for uw in WAV_UNITS:
+        out.append(('sed', dict(unit_wav=uw)))
+    for uf in FREQ_UNITS:
+        out.append(('sed', dict(unit_freq=uf)))
+    out.append(('sed', dict(unit_wav='nm', unit_freq='GHz', positional=True)))
+    out.append(('cube', dict(meta=True)))
+    out.append(('cube', dict(meta=True, positional=True)))
+    return out
+
+
+def random_route(rng, kind):
+    r = {}
+    if rng.random() < 0.4:
+        r['clone'] = rng.choice(CLONES)
+    if rng.random() < 0.3:
+        r['positional'] = True
+    if rng.random() < 0.2:
+        r['refuse_first'] = True
+    if kind == 'conv' and rng.random() < 0.4:
+        r['ctor'] = True
+    if kind == 'cube' and rng.random() < 0.4:
+        r['ctor'] = rng.choice(['wav', 'nu', 'all'])
+    if kind == 'sed' and rng.random() < 0.4:
+        r['unit_wav'] = rng.choice(WAV_UNITS)
+    if kind == 'sed' and rng.random() < 0.3:
+        r['unit_freq'] = rng.choice(FREQ_UNITS)
+    if kind == 'cube' and rng.random() < 0.3:
+        r['meta'] = True
+    return r
 
 
 def gen_history(rng, combo, n_steps, shape_change, small=True):
@@ -271,6 +353,24 @@ def gen_cases(seed, tier):
         if n % 3 == 0:
             rng = case_rng(seed, PID, i); i += 1
             yield gen_history(rng, combo, 4, True)
+    # special value patterns of every stored array
+    base = dict(direction='asc', order='nu', has_ap=True, has_unc=True, unit='mJy', memmap=False, has_wav=True)
+    for kind in ('sed', 'cube', 'conv'):
+        for arr in ('val', 'unc'):
+            for pat in PATTERNS:
+                rng = case_rng(seed, PID, i); i += 1
+                yield apply_pattern(fill(rng, dict(base, kind=kind, order=rng.choice(['nu', 'wav'])), small=True), arr, pat, rng)
+        rng = case_rng(seed, PID, i); i += 1
+        c = fill(rng, dict(base, kind=kind, direction='desc'), small=True)
+        yield apply_pattern(apply_pattern(c, 'val', 'zero', rng), 'unc', 'zero', rng)
+    # routes: constructor arguments vs attributes, copy / deepcopy / pickle before use, positional calls, non-default
+    # read units, meta=, a refused write (overwrite=False on an existing file) before the real one
+    for kind, route in route_plan():
+        rng = case_rng(seed, PID, i); i += 1
+        c = fill(rng, dict(base, kind=kind, direction=rng.choice(['asc', 'desc']), order=rng.choice(['nu', 'wav']),
+                           unit=rng.choice(UNITS), has_unc=True), small=True)
+        c['route'] = route
+        yield c
     # a path and its compressed twin in one directory (stale siblings, .gz fallback of SED.read)
     for n, (combo, mode) in enumerate(sibling_plan()):
         rng = case_rng(seed, PID, i); i += 1
@@ -294,7 +394,12 @@ def gen_cases(seed, tier):
         elif x < 0.16:
             yield gen_history(rng, rng.choice(combos), rng.randint(2, 4), rng.random() < 0.3, small=rng.random() < 0.5)
         else:
-            yield fill(rng, rng.choice(combos), small=False)
+            c = fill(rng, rng.choice(combos), small=False)
+            if rng.random() < 0.12:
+                apply_pattern(c, rng.choice(['val', 'unc']), rng.choice(PATTERNS), rng)
+            if rng.random() < 0.3:
+                c['route'] = random_route(rng, c['kind'])
+            yield c
         i += 1
 
 
@@ -334,6 +439,68 @@ def _first_bad(a, b, exact):
         return ''
     i = tuple(int(x) for x in bad[0])
     return 'cell %r: read %r, stored %r (%d cells differ)' % (i, float(a[i]), float(b[i]), len(bad))
+
+
+def _clone(obj, how):
+    """the object as it comes out of copy.copy / copy.deepcopy (SED.copy) / a pickle round trip"""
+    import copy
+    import pickle
+    if how == 'copy':
+        return copy.copy(obj)
+    if how == 'deepcopy':
+        return obj.copy() if hasattr(obj, 'copy') else copy.deepcopy(obj)
+    if how == 'pickle':
+        return pickle.loads(pickle.dumps(obj))
+    return obj
+
+
+def _route_branches(c, branches):
+    r = c.get('route') or {}
+    k = c['kind']
+    if r.get('clone'):
+        branches.add('route_clone_%s_%s' % (r['clone'], k))
+    if r.get('positional'):
+        branches.add('route_positional_' + k)
+    if r.get('ctor') and k == 'conv':
+        branches.add('route_ctor_conv')
+    if r.get('unit_wav'):
+        branches.add('route_unit_wav')
+    if r.get('unit_freq'):
+        branches.add('route_unit_freq')
+    if r.get('meta'):
+        branches.add('route_meta_cube')
+    for arr, pat in (c.get('pattern') or {}).items():
+        branches.add('pattern_%s_%s_%s' % (k, arr, pat))
+
+
+def _write(obj, fn, route, mod, what, branches, meta=None):
+    """obj.write(fn, overwrite=True) by keyword or position; with route['refuse_first'] the file exists already (other
+    bytes) and a default write (overwrite=False) is tried first: it must refuse and leave the file alone, and the
+    object must still be usable"""
+    route = route or {}
+    if route.get('refuse_first'):
+        with open(fn, 'wb') as f:
+            f.write(b'stale bytes of an earlier file')
+        before = open(fn, 'rb').read()
+        try:
+            if route.get('positional'):
+                obj.write(fn, False)
+            else:
+                obj.write(fn)
+            mod.append('%s: write with overwrite=False replaced an existing file instead of refusing' % what)
+        except OSError:
+            branches.add('route_refused_then_overwrite_' + what)
+            if open(fn, 'rb').read() != before:
+                mod.append('%s: the refused write changed the existing file' % what)
+    if meta is not None:
+        if route.get('positional'):
+            obj.write(fn, True, meta)
+        else:
+            obj.write(fn, overwrite=True, meta=meta)
+    elif route.get('positional'):
+        obj.write(fn, True)
+    else:
+        obj.write(fn, overwrite=True)
 
 
 def _paths(c, d, base):
@@ -381,6 +548,7 @@ def check_sed(c, d, branches, with_model=True):
     exact_e = exact and eun == c['unit']
     if eun != c['unit']:
         branches.add('flux_error_units_differ')
+    _route_branches(c, branches)
     wav = np.array(c['wav'], float)
     nw = len(wav)
     prop, mod = [], []
@@ -397,13 +565,30 @@ def check_sed(c, d, branches, with_model=True):
         # in that unit
         err = _convert(err_stored, eun, c['unit'], nu_in, c['distance_kpc'])
         fn, fn_read = _paths(c, d, 'sed_%d.fits' % im)
+        route = c.get('route') or {}
+        uw = getattr(u, route.get('unit_wav') or 'micron')
+        uf = getattr(u, route.get('unit_freq') or 'Hz')
         try:
             with common.quiet():
-                s.write(fn, overwrite=True)
-                r = SED.read(fn_read, order=c['order'], unit_flux=unit)
-                r2 = SED.read(fn_read, order=other, unit_flux=unit)
+                s = _clone(s, route.get('clone'))
+                _write(s, fn, route, mod, 'sed', branches)
+                if route.get('positional'):
+                    r = SED.read(fn_read, uw, uf, unit, c['order'])
+                    r2 = SED.read(fn_read, uw, uf, unit, other)
+                else:
+                    kw = {}
+                    if route.get('unit_wav'):
+                        kw['unit_wav'] = uw
+                    if route.get('unit_freq'):
+                        kw['unit_freq'] = uf
+                    r = SED.read(fn_read, order=c['order'], unit_flux=unit, **kw)
+                    r2 = SED.read(fn_read, order=other, unit_flux=unit, **kw)
         except Exception as e:
             prop.append('model %s: write/read raised %s: %s' % (name, type(e).__name__, e))
+            continue
+        if r.wav.unit != uw or r.nu.unit != uf:
+            prop.append('model %s: wavelengths / frequencies come back in %s / %s, requested %s / %s'
+                        % (name, r.wav.unit, r.nu.unit, uw, uf))
             continue
         rw = np.asarray(r.wav.to(u.micron).value, float)
         rn = np.asarray(r.nu.to(u.Hz).value, float)
@@ -495,8 +680,34 @@ def check_cube(c, d, branches, with_model=True):
     nm, nap, nw = val.shape
     prop, mod = [], []
     other = 'wav' if c['order'] == 'nu' else 'nu'
-    cube = pk.make_cube(c['names'], wav, val, unc, apertures_au=c['aps'], distance_kpc=c['distance_kpc'], unit=unit)
+    route = c.get('route') or {}
+    _route_branches(c, branches)
     eunit = _unit(_eunit_name(c))
+    if route.get('ctor'):
+        # through the constructor's documented keyword arguments instead of attributes assigned later:
+        # 'wav' / 'nu' = the spectral axis by keyword (the rest by attribute), 'all' (True) = every argument by keyword
+        how = route['ctor'] if isinstance(route['ctor'], str) else 'all'
+        spectral = dict(nu=(wav * u.micron).to(u.Hz, equivalencies=u.spectral())) if how == 'nu' else dict(wav=wav * u.micron)
+        try:
+            if how == 'all':
+                cube = SEDCube(valid=None if c.get('valid') is None else np.array(c['valid'], dtype=int),
+                               names=np.array(c['names']), distance=c['distance_kpc'] * u.kpc,
+                               apertures=None if c['aps'] is None else np.array(c['aps'], float) * u.au,
+                               val=val * unit, unc=None if unc is None else unc * eunit, **spectral)
+            else:
+                cube = SEDCube(names=np.array(c['names']), **spectral)
+                cube.distance = c['distance_kpc'] * u.kpc
+                if c['aps'] is not None:
+                    cube.apertures = np.array(c['aps'], float) * u.au
+                cube.val = val * unit
+                if unc is not None:
+                    cube.unc = unc * eunit
+        except Exception as e:
+            return ['SEDCube(%s=...) [%s]: a documented constructor argument is refused: %s: %s'
+                    % ('nu' if how == 'nu' else 'wav', how, type(e).__name__, e)], []
+        branches.add('route_ctor_%s_cube' % ('all_keywords' if how == 'all' else how))
+    else:
+        cube = pk.make_cube(c['names'], wav, val, unc, apertures_au=c['aps'], distance_kpc=c['distance_kpc'], unit=unit)
     if c['has_unc'] and eunit != unit:
         cube.unc = unc * eunit                   # uncertainties held in another permitted unit (BUNIT is per HDU)
         branches.add('flux_error_units_differ')
@@ -504,13 +715,25 @@ def check_cube(c, d, branches, with_model=True):
         cube.valid = np.array(c['valid'], dtype=int)
         branches.add('cube_valid_flags')
     fn, fn_read = _paths(c, d, 'cube.fits')
+    meta = {'VERIFKEY': 17, 'ORIGINX': 'harness'} if route.get('meta') else None
     try:
         with common.quiet():
-            cube.write(fn, overwrite=True)
-            r = SEDCube.read(fn_read, order=c['order'], memmap=c['memmap'])
-            r2 = SEDCube.read(fn_read, order=other, memmap=c['memmap'])
+            cube = _clone(cube, route.get('clone'))
+            _write(cube, fn, route, mod, 'cube', branches, meta=meta)
+            if route.get('positional'):
+                r = SEDCube.read(fn_read, c['order'], c['memmap'])
+                r2 = SEDCube.read(fn_read, other, c['memmap'])
+            else:
+                r = SEDCube.read(fn_read, order=c['order'], memmap=c['memmap'])
+                r2 = SEDCube.read(fn_read, order=other, memmap=c['memmap'])
     except Exception as e:
         return ['cube write/read raised %s: %s' % (type(e).__name__, e)], []
+    if meta is not None:
+        from astropy.io import fits as _fits
+        with _fits.open(fn) as hl:
+            hdr = hl[0].header
+            if hdr.get('VERIFKEY') != 17 or hdr.get('ORIGINX') != 'harness':
+                mod.append('cube: meta= keywords are not in the primary header')
     rw = np.asarray(r.wav.to(u.micron).value, float)
     try:
         rv = _qval(r.val, unit)
@@ -653,22 +876,30 @@ def check_conv(c, d, branches, with_model=True):
     nm, nap, nw = val.shape
     prop, mod = [], []
     for k in range(min(nw, 3)):
-        cf = ConvolvedFluxes()
-        cf.model_names = np.array(c['names'])
-        if c['has_ap']:
-            cf.apertures = np.array(c['aps'], float) * u.au
+        route = c.get('route') or {}
+        _route_branches(c, branches)
         has_wav = c.get('has_wav', True)
-        if has_wav:
-            cf.central_wavelength = c['wav'][k] * u.micron
         eunit = _unit(_eunit_name(c))
         if eunit != unit:
             branches.add('flux_error_units_differ')
-        cf.flux = val[:, :, k] * unit
-        cf.error = unc[:, :, k] * eunit
+        if route.get('ctor'):
+            cf = ConvolvedFluxes(wavelength=c['wav'][k] * u.micron if has_wav else None, model_names=np.array(c['names']),
+                                 apertures=np.array(c['aps'], float) * u.au if c['has_ap'] else None,
+                                 flux=val[:, :, k] * unit, error=unc[:, :, k] * eunit)
+        else:
+            cf = ConvolvedFluxes()
+            cf.model_names = np.array(c['names'])
+            if c['has_ap']:
+                cf.apertures = np.array(c['aps'], float) * u.au
+            if has_wav:
+                cf.central_wavelength = c['wav'][k] * u.micron
+            cf.flux = val[:, :, k] * unit
+            cf.error = unc[:, :, k] * eunit
         fn, fn_read = _paths(c, d, 'conv_%d.fits' % k)
         try:
             with common.quiet():
-                cf.write(fn, overwrite=True)
+                cf = _clone(cf, route.get('clone'))
+                _write(cf, fn, route, mod, 'conv', branches)
                 r = ConvolvedFluxes.read(fn_read)
         except Exception as e:
             prop.append('conv write/read raised %s: %s' % (type(e).__name__, e))
@@ -812,6 +1043,22 @@ def check_sed_noerr(c, d, branches, with_model=True):
         expected = 'refused' if t.tok() == 'raise-write' else 'written'
     if outcome != expected:
         mod.append('SED without errors: SED.write %s, model: %s' % (outcome, expected))
+    # the same object, completed after the refusal, is written and read back like any other
+    if outcome == 'refused':
+        errv = np.array(c['unc'][0], float)
+        try:
+            with common.quiet():
+                s.error = errv.reshape(s.flux.shape) * unit
+                s.write(fn)
+                r = SED.read(fn, order=c['order'], unit_flux=unit)
+            idx = _match(np.asarray(r.wav.to(u.micron).value, float), wav)
+            exact = c['unit'] == 'erg/cm2/s'
+            if idx is None or not _eq(_qval(r.flux, unit), flux[:, idx], exact) or \
+                    not _eq(_qval(r.error, unit), errv.reshape(flux.shape)[:, idx], exact):
+                prop.append('SED completed after a refused write does not read back what was stored')
+            branches.add('sed_reused_after_refusal')
+        except Exception as e:
+            prop.append('SED completed after a refused write: %s: %s' % (type(e).__name__, e))
     return prop, mod
 
 
